@@ -10,6 +10,7 @@ package main
 import (
 	"bufio"
 	"bytes"
+	"context"
 	"crypto/sha256"
 	"encoding/hex"
 	"encoding/json"
@@ -758,6 +759,13 @@ func storeMode(seed int64, histories int, out *json.Encoder) error {
 				line.Root, line.RefRoot, line.RootEq = hex.EncodeToString(root), hex.EncodeToString(ref), bytes.Equal(root, ref)
 				// proofs from a read-only view of the committed version, verified against the committed root
 				if last || rng.Intn(2) == 0 {
+					// sometimes the committed data has left the memtable by the time somebody asks for a proof (flush / compaction)
+					if rng.Intn(2) == 0 {
+						_ = st.DB().Flush()
+						if rng.Intn(2) == 0 {
+							_ = st.DB().Compact(context.Background(), []byte{0}, []byte{0xff, 0xff, 0xff, 0xff}, false)
+						}
+					}
 					roi, e := st.NewReadOnly(st.Version())
 					if e == nil {
 						ro := roi.(*store.Store)
